@@ -19,6 +19,28 @@ CHECKS = {
             '.inf parsed back and compared field by field.',
             'Tolerant parsers in lib/render.py; XMODEM CRC reference implemented bitwise.',
             'bounded-exhaustive enumeration of catalogue field domains, real binary vs reference model'),
+    'C03': ('exploration', '4 C03',
+            'Bounded-exhaustive exploration of program space: all single bytes and all ordered byte pairs in and out of '
+            'quotes, all triples over a 20-class alphabet, all 65536 line-number references (all 2^24 operand triples '
+            'thorough), line numbers x lengths, all loop-indent sequences of <=4/5 lines, x 10 dialect names x LISTO 0..7 '
+            'x file/stdin; byte-exact comparison with a reference detokeniser transcribed from doc/bbcbasic.5.',
+            'Reference lib/basic_ref.py cross-validated against golden-token-map.txt and the repository golden listings; '
+            'bytes where the two anchors disagree are outside the domain.',
+            'bounded-exhaustive enumeration of tokenised programs, real binary vs reference detokeniser'),
+    'C08': ('exploration', '4 C08',
+            'All byte strings up to length 2 (quick) / 3 (thorough) x 6 dialects, all strings <=4/5 over a 16-class '
+            'alphabet, every prefix and single-byte substitution of seed programs, decoded in-process by the real decoder '
+            'under ASan+UBSan and MSan; full command-line matrix on ASan / assertion-enabled / MSan binaries.',
+            'Memory safety as far as the sanitizers observe; in-process executor mc/mcb.c contains no oracle.',
+            'bounded-exhaustive input enumeration under sanitizers (in-process executor + real CLI)'),
+    'C09': ('exploration', '4 C09',
+            'All programs of <=3 lines over 6 line shapes in both framings: every proper non-empty prefix in a fresh '
+            'process, every single-byte corruption of every framing byte classified by a reference framing parser, every '
+            'unassigned token per dialect, and all sequences of 1..4 input files in one process (history) compared with '
+            'each file alone and with the real CLI.',
+            'Reference framing parser lib/basic_ref.parse_program from doc/bbcbasic.5; cases the documentation leaves open '
+            'are outside the domain.',
+            'bounded-exhaustive enumeration of inputs x file histories against a reference parser'),
 }
 
 NA_REASON = 'check not built yet (work in progress; see DESIGN.md section 4)'
